@@ -36,7 +36,9 @@ THEOREMS = ["JanetModel.Props.C16." + t for t in (
     "exit_status_exact", "exit_status_injective", "stop_and_continue_words", "merged_or_unshifted_arm_is_wrong",
     # session 3: descriptor plumbing of os/spawn / os/execute, life cycle of the process value
     "child_stdio_exact", "std_source_unmoved_loses_descriptor", "wait_once", "first_wait_suspends", "reaped_status_recorded",
-    "close_closes_owned_once")]
+    "close_closes_owned_once",
+    # session 3: liveness under an explicit fairness hypothesis
+    "op_ends_within_fair_events", "every_op_completes_under_fairness")]
 PROC_CURRENT = ["JanetModel.Proc.Current." + t for t in (
     "current_source_status_decoder", "current_source_waitpid_options", "exit_status_exact_current", "current_source_moves_std_sources")]
 PLUMB_CASES = {"quick": 160, "thorough": 2400}
@@ -681,8 +683,9 @@ def run(ctx, only=None):
         "decoder is proved against; that waitpid(pid,&st,0) delivers only such words for a terminated child is the kernel's contract",
         "an injected EAGAIN / short write is followed by EPOLL_CTL_MOD so that the edge-triggered registration sees a fresh readiness edge "
         "(models a kernel whose buffer state changed right after the call)",
-        "liveness is stated as 'a waiting fiber is always registered in its slot and close leaves nobody waiting'; that the kernel "
-        "eventually reports readiness is assumed",
+        "liveness: proved as 'a read / write ends within max(1,n) productive events' and 'on an infinite schedule in which productive events "
+        "keep coming some finite prefix ends the operation'; that the kernel's event sequence IS fair (readiness is reported again after a "
+        "would-block) is the hypothesis of these theorems, not proved",
         "windows (IOCP) branch of ev_callback_read/write is not modelled"])
 
 
